@@ -7,6 +7,7 @@ import (
 	"crypto/elliptic"
 	"crypto/sha256"
 	"fmt"
+	"io"
 	"math/big"
 	"os"
 	"path/filepath"
@@ -106,7 +107,9 @@ func xorLabel(a, b ot.Label) ot.Label {
 // ---------------------------------------------------------------------------
 // Modes (a) whole circuit and (b) streaming.
 
-// Case is one session of mode "circuit" or "stream".
+// Case is one session of mode "circuit" or "stream".  With Fault set the
+// session is run twice: honestly (which also tells how many reads of the
+// random source an honest garbler performs) and with one failing read.
 type Case struct {
 	Mode  string     `json:"mode"`
 	Circ  *gen.Circ  `json:"circ,omitempty"`
@@ -115,27 +118,59 @@ type Case struct {
 	Y     string     `json:"y"`
 	OT    string     `json:"ot"`
 	Seed  uint64     `json:"seed"`
+	Fault *Fault     `json:"fault,omitempty"`
 }
 
+// Shares of wide and fault-injected cases (percent).
+const (
+	widePctCircuit  = 13
+	widePctStream   = 10
+	faultPctCircuit = 10
+	faultPctStream  = 14
+)
+
 func genCircuitCase(t *rapid.T) Case {
+	if gen.Uniform(t, 100, "wide") < widePctCircuit {
+		total := drawWideTotal(t)
+		n0 := drawSplit(t, total)
+		c := drawWideCirc(t, n0, total-n0)
+		return Case{Mode: "circuit", Circ: &c,
+			X:     gen.BitsOf(drawWideBits(t, n0, "x")),
+			Y:     gen.BitsOf(drawWideBits(t, total-n0, "y")),
+			OT:    rapid.SampledFrom([]string{"co", "cot", "cot", "cot-malicious"}).Draw(t, "ot"),
+			Seed:  rapid.Uint64().Draw(t, "seed"),
+			Fault: drawFault(t, faultPctCircuit)}
+	}
 	o := gen.CircOpts{MinArgs: 2, MaxArgs: 2, MaxWidth: 8, MaxGates: 60, MaxOuts: 3, MaxOutWidth: 4}
 	c := gen.DrawCirc(t, o)
 	return Case{Mode: "circuit", Circ: &c,
-		X:    gen.BitsOf(gen.DrawBits(t, c.In[0], "x")),
-		Y:    gen.BitsOf(gen.DrawBits(t, c.In[1], "y")),
-		OT:   rapid.SampledFrom([]string{"co", "co", "cot", "cot-malicious"}).Draw(t, "ot"),
-		Seed: rapid.Uint64().Draw(t, "seed")}
+		X:     gen.BitsOf(gen.DrawBits(t, c.In[0], "x")),
+		Y:     gen.BitsOf(gen.DrawBits(t, c.In[1], "y")),
+		OT:    rapid.SampledFrom([]string{"co", "co", "cot", "cot-malicious"}).Draw(t, "ot"),
+		Seed:  rapid.Uint64().Draw(t, "seed"),
+		Fault: drawFault(t, faultPctCircuit)}
 }
 
 func genStreamCase(t *rapid.T) Case {
+	if gen.Uniform(t, 100, "wide") < widePctStream {
+		total := drawWideTotal(t)
+		n0 := drawSplit(t, total)
+		return Case{Mode: "stream", Prog: drawWideProg(t, n0, total-n0),
+			X:     bitsHex(drawWideBits(t, n0, "x")),
+			Y:     bitsHex(drawWideBits(t, total-n0, "y")),
+			OT:    rapid.SampledFrom([]string{"co", "cot", "cot"}).Draw(t, "ot"),
+			Seed:  rapid.Uint64().Draw(t, "seed"),
+			Fault: drawFault(t, faultPctStream)}
+	}
 	o := mpcl.Opts{NumParams: 2, MaxStmts: 6, MaxDepth: 2, Helpers: 1, Arrays: true,
 		Loops: true, ScalarParams: true, MaxWidth: 40, AliasHeavy: rapid.Bool().Draw(t, "alias")}
 	p := mpcl.Draw(t, o)
 	vec := mpcl.DrawInputs(t, p, 2)
 	in := vec[rapid.IntRange(0, len(vec)-1).Draw(t, "vec")]
 	return Case{Mode: "stream", Prog: p, X: in[0], Y: in[1],
-		OT:   rapid.SampledFrom([]string{"co", "cot"}).Draw(t, "ot"),
-		Seed: rapid.Uint64().Draw(t, "seed")}
+		OT:    rapid.SampledFrom([]string{"co", "cot"}).Draw(t, "ot"),
+		Seed:  rapid.Uint64().Draw(t, "seed"),
+		Fault: drawFault(t, faultPctStream)}
 }
 
 func makeOT(kind string, seed uint64, party uint64) ot.OT {
@@ -162,25 +197,52 @@ func bitsToInt(bits []bool) *big.Int {
 	return v
 }
 
-func run(cs Case) ev.Outcome {
+// sess is what one execution of a session left behind.
+type sess struct {
+	skip       string // malformed case
+	res        xport.PairOutcome
+	wires      []ot.Wire // handed to OT.Send by the garbler
+	transcript []byte    // garbler -> evaluator
+	n0, n1     int       // input wires of garbler / evaluator
+	tables     int
+	src        string
+	reads      int // reads of the garbler's random source
+	failed     bool
+	log        []readRec
+}
+
+func (s *sess) complete() bool {
+	return !s.res.TimedOut && !s.res.Stalled && !s.res.A.Failed() && !s.res.B.Failed()
+}
+
+func (s *sess) how() string {
+	return fmt.Sprintf("stalled=%v timedout=%v gerr=%v eerr=%v gpanic=%v", s.res.Stalled, s.res.TimedOut,
+		s.res.A.Err, s.res.B.Err, s.res.A.Panic != "" || s.res.B.Panic != "")
+}
+
+// session runs the two parties of cs once; the failAt:th read of the
+// garbler's random source fails (0 = none).
+func session(cs Case, failAt int) *sess {
+	s := &sess{}
 	d := xport.NewDuplex(nil, nil)
 	d.Record()
 	gConn, eConn := d.Conns()
 	spy := &spyOT{OT: makeOT(cs.OT, cs.Seed, 0)}
 	eOT := makeOT(cs.OT, cs.Seed, 1)
-	cfg := &env.Config{Rand: gen.NewDRBG(cs.Seed, 1)}
-	var res xport.PairOutcome
-	garblerBits := 0
-	tables := 0
-	var src string
+	rnd := newFaultReader(cs.Seed, 1, failAt)
+	cfg := &env.Config{Rand: rnd}
 	switch cs.Mode {
 	case "circuit":
+		if cs.Circ == nil || len(cs.Circ.In) != 2 {
+			s.skip = "malformed case"
+			return s
+		}
 		circ := cs.Circ.Build()
 		x, y := gen.ParseBits(cs.X), gen.ParseBits(cs.Y)
-		garblerBits = len(x)
+		s.n0, s.n1 = cs.Circ.In[0], cs.Circ.In[1]
 		cnt := cs.Circ.OpCounts()
-		tables = cnt[2] + cnt[3] + cnt[4]
-		res = xport.RunPair(d,
+		s.tables = cnt[2] + cnt[3] + cnt[4]
+		s.res = xport.RunPair(d,
 			func() ([]*big.Int, error) {
 				return circuit.Garbler(cfg, gConn, spy, circ, bitsToInt(x), false)
 			},
@@ -188,14 +250,20 @@ func run(cs Case) ev.Outcome {
 				return circuit.Evaluator(eConn, eOT, circ, bitsToInt(y), false)
 			}, 10*time.Second, 120*time.Second)
 	case "stream":
-		src = cs.Prog.Source()
+		if cs.Prog == nil || cs.Prog.Main() == nil || len(cs.Prog.Main().Params) != 2 {
+			s.skip = "malformed case"
+			return s
+		}
+		s.src = cs.Prog.Source()
 		params := utils.NewParams()
 		params.Config = cfg
 		sx, _ := circuit.InputSizes([]string{cs.X})
 		sy, _ := circuit.InputSizes([]string{cs.Y})
-		garblerBits = cs.Prog.Bits(cs.Prog.Main().Params[0].T)
-		tables = 1
-		res = xport.RunPair(d,
+		s.n0 = cs.Prog.Bits(cs.Prog.Main().Params[0].T)
+		s.n1 = cs.Prog.Bits(cs.Prog.Main().Params[1].T)
+		s.tables = 1
+		src := s.src
+		s.res = xport.RunPair(d,
 			func() ([]*big.Int, error) {
 				_, vals, err := compiler.New(params).Stream(gConn, spy, "{data}",
 					strings.NewReader(src), []string{cs.X}, [][]int{sx, sy})
@@ -206,65 +274,218 @@ func run(cs Case) ev.Outcome {
 				return vals, err
 			}, 10*time.Second, 120*time.Second)
 	default:
-		return ev.Outcome{Skip: "unknown mode"}
+		s.skip = "unknown mode"
+		return s
 	}
 	d.Close()
-	if res.TimedOut || res.Stalled || res.A.Failed() || res.B.Failed() {
-		// Functional failures are C02/C05's business; without a complete
-		// session there is no transcript to judge.
-		return ev.Outcome{Skip: fmt.Sprintf("session did not complete (stalled=%v timedout=%v gerr=%v eerr=%v gpanic=%v)",
-			res.Stalled, res.TimedOut, res.A.Err, res.B.Err, res.A.Panic != "" || res.B.Panic != "")}
-	}
 	spy.mu.Lock()
-	wires := spy.wires
+	s.wires = append([]ot.Wire{}, spy.wires...)
 	spy.mu.Unlock()
-	if len(wires) == 0 {
-		return ev.Outcome{Skip: "no wire reached OT.Send (evaluator has no input bits)"}
-	}
+	s.transcript = d.Transcript(0)
+	s.reads, s.failed, s.log = rnd.snapshot()
+	return s
+}
+
+// offsetOf derives R from the wires handed to OT.Send: L0 xor L1, the same
+// for every wire, permute bit set.
+func offsetOf(mode string, wires []ot.Wire) (ot.Label, *ev.Outcome) {
 	r := xorLabel(wires[0].L0, wires[0].L1)
 	for i, w := range wires {
 		if !xorLabel(w.L0, w.L1).Equal(r) {
-			return ev.Fail(cs.Mode+"/offset-not-global", "wire %d handed to OT.Send has L0^L1 != that of wire 0", i)
+			o := ev.Fail(mode+"/offset-not-global", "wire %d handed to OT.Send has L0^L1 != that of wire 0", i)
+			return r, &o
 		}
 	}
 	if !r.S() {
-		return ev.Fail(cs.Mode+"/R-permute-bit", "permute bit of the offset is not set")
+		o := ev.Fail(mode+"/R-permute-bit", "permute bit of the offset is not set")
+		return r, &o
 	}
-	transcript := d.Transcript(0)
-	leaks := scan(transcript, r, func(a, b int) string { return "transcript" })
-	if len(leaks) > 0 {
-		l := leaks[0]
-		return ev.Fail(cs.Mode+"/"+l.Kind, "%s at byte offsets %d/%d of the %d-byte garbler->evaluator transcript (%d findings)\n%s",
-			l.Kind, l.Off1, l.Off2, len(transcript), len(leaks), src)
+	return r, nil
+}
+
+// judge applies the oracle to what the garbler disclosed in one execution:
+// the transcript (every byte offset) and the wires handed to OT.Send, of
+// which the evaluator obtains one label each, at its choice.
+func judge(mode string, s *sess, rs []ot.Label, what string) *ev.Outcome {
+	fail := func(sig, format string, a ...interface{}) *ev.Outcome {
+		o := ev.Fail(mode+"/"+sig, "%s: %s\n%s", what, fmt.Sprintf(format, a...), s.src)
+		return &o
 	}
+	for _, r := range rs {
+		leaks := scan(s.transcript, r, func(a, b int) string { return "transcript" })
+		if len(leaks) > 0 {
+			l := leaks[0]
+			return fail(l.Kind, "%s at byte offsets %d/%d of the %d-byte garbler->evaluator transcript (%d findings)",
+				l.Kind, l.Off1, l.Off2, len(s.transcript), len(leaks))
+		}
+		for i, w := range s.wires {
+			if w.L0.Equal(r) || w.L1.Equal(r) {
+				return fail("R-handed-to-OT", "wire %d of %d handed to OT.Send has the offset R itself as one of its two labels (the other is zero): the evaluator obtains R by choosing it", i, len(s.wires))
+			}
+		}
+	}
+	if len(s.wires) == 0 {
+		return nil
+	}
+	// The evaluator picks which label of an OT wire it gets.  If a label of
+	// such a wire is also a label of another OT wire, or is transmitted in
+	// the clear, it can hold two values that differ by R.
+	idx := make(map[[16]byte]int, 2*len(s.wires))
+	var key ot.LabelData
+	for i, w := range s.wires {
+		for j, l := range []ot.Label{w.L0, w.L1} {
+			l.GetData(&key)
+			if o, ok := idx[key]; ok && o != i {
+				return fail("ot-wires-share-label", "wires %d and %d handed to OT.Send share a label (L%d of the latter): choosing different bits for them yields both labels of a wire", o, i, j)
+			}
+			idx[key] = i
+		}
+	}
+	t := s.transcript
+	for i := 0; i+16 <= len(t); i++ {
+		copy(key[:], t[i:i+16])
+		if o, ok := idx[key]; ok {
+			return fail("ot-wire-label-in-clear", "a label of wire %d handed to OT.Send is also transmitted in the clear at byte offset %d of the transcript: the evaluator can obtain the other label of that wire through the OT", o, i)
+		}
+	}
+	return nil
+}
+
+func run(cs Case) ev.Outcome {
+	h := session(cs, 0)
+	if h.skip != "" {
+		return ev.Outcome{Skip: h.skip}
+	}
+	if !h.complete() {
+		// Functional failures are C02/C05's business; without a complete
+		// session there is no transcript to judge.
+		return ev.Outcome{Skip: "session did not complete (" + h.how() + ")"}
+	}
+	if len(h.wires) == 0 {
+		return ev.Outcome{Skip: "no wire reached OT.Send (evaluator has no input bits)"}
+	}
+	r, bad := offsetOf(cs.Mode, h.wires)
+	if bad != nil {
+		return *bad
+	}
+	if bad := judge(cs.Mode, h, []ot.Label{r}, "honest run"); bad != nil {
+		return *bad
+	}
+	nontrivial := s0(h)
 	classes := []string{"mode=" + cs.Mode, "ot=" + cs.OT}
-	out := ev.OK(garblerBits >= 1 && tables >= 1, classes...)
-	out.Key = fmt.Sprintf("%x", sha256.Sum256(transcript))
-	if src != "" {
-		out.Sample = map[string]interface{}{"mode": cs.Mode, "source": src, "x": cs.X, "y": cs.Y,
-			"ot": cs.OT, "transcript_bytes": len(transcript)}
-	} else {
-		out.Sample = map[string]interface{}{"mode": cs.Mode, "circ": cs.Circ, "x": cs.X, "y": cs.Y,
-			"ot": cs.OT, "transcript_bytes": len(transcript)}
+	wc := wideClasses(h.n0, h.n1)
+	classes = append(classes, wc...)
+	if len(wc) > 0 && nontrivial {
+		classes = append(classes, "wide-nontrivial")
 	}
+	sum := sha256.New()
+	sum.Write(h.transcript)
+	evals := 1
+
+	if cs.Fault != nil {
+		k := cs.Fault.index(h.reads)
+		rRead := readOfR(h.log, r)
+		f := session(cs, k)
+		if f.res.TimedOut || f.res.Stalled {
+			return ev.Outcome{Skip: "fault run did not end by itself (" + f.how() + ")"}
+		}
+		evals = 2
+		classes = append(classes, "fault", "fault-at="+cs.Fault.Mode)
+		// Candidates for the offset of the faulty run: what its own
+		// OT.Send shows, and the honest run's R when the two runs are
+		// identical up to the failing read and R was drawn before it.
+		var rs []ot.Label
+		if len(f.wires) > 0 {
+			rf, bad := offsetOf(cs.Mode+"/fault", f.wires)
+			if bad != nil {
+				return *bad
+			}
+			rs = append(rs, rf)
+		}
+		aligned := f.failed && samePrefix(h.log, f.log, k-1)
+		switch {
+		case !f.failed:
+			classes = append(classes, "fault-hit=never-reached")
+		case rRead == 0 || !aligned:
+			classes = append(classes, "fault-hit=R-read-unidentified")
+		case k < rRead:
+			classes = append(classes, "fault-hit=before-R")
+		case k == rRead:
+			classes = append(classes, "fault-hit=read-of-R")
+		default:
+			classes = append(classes, "fault-hit=after-R")
+			if len(rs) == 0 || !rs[0].Equal(r) {
+				rs = append(rs, r)
+			}
+		}
+		if f.complete() {
+			classes = append(classes, "fault-end=completed")
+		} else if f.res.A.Panic != "" || f.res.B.Panic != "" {
+			classes = append(classes, "fault-end=panic")
+		} else {
+			classes = append(classes, "fault-end=aborted")
+		}
+		what := fmt.Sprintf("run in which read %d of the %d reads of the garbler's random source fails once (%s)",
+			k, h.reads, f.how())
+		if bad := judge(cs.Mode+"/fault", f, rs, what); bad != nil {
+			return *bad
+		}
+		if f.failed && len(rs) > 0 && h.n0 >= 1 {
+			// The failure was delivered while the offset was known.
+			classes = append(classes, "fault-nontrivial")
+		} else {
+			classes = append(classes, "fault-trivial")
+		}
+		sum.Write([]byte(fmt.Sprintf("|fault %d|", k)))
+		sum.Write(f.transcript)
+	}
+
+	out := ev.OK(nontrivial, classes...)
+	out.Evals = evals
+	out.Key = fmt.Sprintf("%x", sum.Sum(nil))
+	sample := map[string]interface{}{"mode": cs.Mode, "x": cs.X, "y": cs.Y, "ot": cs.OT,
+		"transcript_bytes": len(h.transcript), "fault": cs.Fault}
+	if h.src != "" {
+		sample["source"] = h.src
+	} else if len(wc) > 0 {
+		sample["circ_in"], sample["circ_out"], sample["gates"] = cs.Circ.In, cs.Circ.Out, cs.Circ.Gates
+	} else {
+		sample["circ"] = cs.Circ
+	}
+	if len(cs.X) > 80 {
+		sample["x"], sample["y"] = fmt.Sprintf("(%d chars)", len(cs.X)), fmt.Sprintf("(%d chars)", len(cs.Y))
+	}
+	out.Sample = sample
 	return out
 }
+
+// s0 is the non-triviality rule of a session: the garbler has an input bit
+// and sent a garbled table.
+func s0(s *sess) bool { return s.n0 >= 1 && s.tables >= 1 }
 
 // ---------------------------------------------------------------------------
 // Mode (c): the SHA256(XOR) round protocol.
 
-// ShaCase is one run of the four-round protocol.
+// ShaCase is one run of the four-round protocol.  With Fault set it is run a
+// second time with one failing read of the random source of GarblerRound3
+// (the round that garbles, i.e. draws R and the labels).
 type ShaCase struct {
 	Curve string `json:"curve"`
 	A     string `json:"a"` // hex, 32 bytes
 	B     string `json:"b"`
 	Seed  uint64 `json:"seed"`
+	Fault *Fault `json:"fault,omitempty"`
 }
 
 var curves = map[string]elliptic.Curve{
 	"P-224": elliptic.P224(), "P-256": elliptic.P256(),
 	"P-384": elliptic.P384(), "P-521": elliptic.P521(),
 }
+
+// faultPctSha is the share of sha2pc cases with a second, fault-injected run.
+// It is larger than in the other units: the unit has few cases and the second
+// run costs next to nothing as long as the garbler aborts.
+const faultPctSha = 34
 
 func genShaCase(t *rapid.T) ShaCase {
 	names := []string{"P-256", "P-224", "P-256", "P-384", "P-521"}
@@ -279,7 +500,7 @@ func genShaCase(t *rapid.T) ShaCase {
 		}
 	}
 	return ShaCase{Curve: rapid.SampledFrom(names).Draw(t, "curve"), A: pick("a"), B: pick("b"),
-		Seed: rapid.Uint64().Draw(t, "seed")}
+		Seed: rapid.Uint64().Draw(t, "seed"), Fault: drawFault(t, faultPctSha)}
 }
 
 func hex32(s string) (res [32]byte) {
@@ -319,93 +540,213 @@ func shaCircuit() (*circuit.Circuit, error) {
 
 const hintKey = "sha2pc/round3/OutputHints[i].L0^L1"
 
-func runSha(cs ShaCase) ev.Outcome {
-	col := ev.Get(prop)
+// shaRun is one execution of the round protocol.
+type shaRun struct {
+	skip       string
+	bad        *ev.Outcome // violation that is not the known hint finding
+	known      int         // hint slots that disclose L0 and L1
+	transcript []byte
+	r          ot.Label // offset of this run, valid when haveR
+	haveR      bool
+	round3     bool // GarblerRound3 produced a payload
+	reads      int
+	failed     bool
+	log        []readRec
+}
+
+// shaOnce runs the four rounds; the failAt:th read of GarblerRound3's random
+// source fails (0 = none).  rh, when non-nil, is the offset of the honest run
+// of the same case, valid for this run because the failing read comes after
+// the read that delivered it.
+func shaOnce(cs ShaCase, failAt int, rh *ot.Label) *shaRun {
+	s := &shaRun{}
 	curve, ok := curves[cs.Curve]
 	if !ok {
-		return ev.Outcome{Skip: "unknown curve"}
+		s.skip = "unknown curve"
+		return s
 	}
 	a, b := hex32(cs.A), hex32(cs.B)
 	p1, gs, err := sha2pc.GarblerRound1(gen.NewDRBG(cs.Seed, 1), curve)
 	if err != nil {
-		return ev.Outcome{Skip: "round1: " + err.Error()}
+		s.skip = "round1: " + err.Error()
+		return s
 	}
 	p2, es, err := sha2pc.EvaluatorRound2(gen.NewDRBG(cs.Seed, 2), curve, p1, b)
 	if err != nil {
-		return ev.Outcome{Skip: "round2: " + err.Error()}
+		s.skip = "round2: " + err.Error()
+		return s
 	}
-	p3, err := sha2pc.GarblerRound3(gen.NewDRBG(cs.Seed, 3), curve, gs, a, p2)
-	if err != nil {
-		return ev.Outcome{Skip: "round3: " + err.Error()}
-	}
-	out, err := sha2pc.EvaluatorRound4(curve, es, p3)
-	if err != nil {
-		return ev.Outcome{Skip: "round4: " + err.Error()}
-	}
-	_ = out
 	e1, err := sha2pc.EncodeRound1(curve, p1)
 	if err != nil {
-		return ev.Outcome{Skip: "encode round1: " + err.Error()}
+		s.skip = "encode round1: " + err.Error()
+		return s
 	}
-	e3, err := sha2pc.EncodeRound3(p3)
+	rnd := newFaultReader(cs.Seed, 3, failAt)
+	p3, err := sha2pc.GarblerRound3(rnd, curve, gs, a, p2)
+	s.reads, s.failed, s.log = rnd.snapshot()
+	var e3 []byte
 	if err != nil {
-		return ev.Outcome{Skip: "encode round3: " + err.Error()}
-	}
-
-	// R, independently of what the payload discloses: garble the same
-	// circuit from an identical random stream (GarblerRound3 reads the
-	// 32-byte key first, then Garble draws R and the input labels).
-	circ, err := shaCircuit()
-	if err != nil {
-		return ev.Outcome{Skip: "cannot parse sha256xor.mpclc: " + err.Error()}
-	}
-	rng := gen.NewDRBG(cs.Seed, 3)
-	key := rng.Bytes(32)
-	g, err := circ.Garble(rng, key)
-	if err != nil {
-		return ev.Outcome{Skip: "reference garbling failed: " + err.Error()}
-	}
-	defer g.Release()
-	r := g.R
-	// Validate the derivation: the labels so obtained must reproduce the
-	// transmitted garbler input labels.
-	for i := 0; i < 256; i++ {
-		bit := a[i/8]>>(uint(i)%8)&1 == 1
-		if !circuit.LabelForBit(g.Wires[i], bit).Equal(p3.GarblerInputs[i]) {
-			return ev.Outcome{Skip: "derivation of R could not be validated against GarblerInputs"}
+		if failAt == 0 {
+			s.skip = "round3: " + err.Error()
+			return s
+		}
+		// The garbler gave up: nothing of round 3 is transmitted.
+	} else {
+		s.round3 = true
+		if _, err := sha2pc.EvaluatorRound4(curve, es, p3); err != nil && failAt == 0 {
+			s.skip = "round4: " + err.Error()
+			return s
+		}
+		e3, err = sha2pc.EncodeRound3(p3)
+		if err != nil {
+			s.skip = "encode round3: " + err.Error()
+			return s
 		}
 	}
 
-	transcript := append(append([]byte{}, e1...), e3...)
-	base := len(e1)
-	hintStart := base + len(e3) - 2*256*32
+	// R, independently of what the payload discloses: garble the same
+	// circuit from an identical random stream with the identical failure
+	// (GarblerRound3 reads the 32-byte key first, then Garble draws R and
+	// the input labels), validated against the transmitted garbler input
+	// labels.
+	var rs []ot.Label
+	if s.round3 {
+		circ, err := shaCircuit()
+		if err != nil {
+			s.skip = "cannot parse sha256xor.mpclc: " + err.Error()
+			return s
+		}
+		ref := newFaultReader(cs.Seed, 3, failAt)
+		var key [32]byte
+		_, kerr := io.ReadFull(ref, key[:])
+		g, err := circ.Garble(ref, key[:])
+		valid := kerr == nil && err == nil
+		if err == nil {
+			defer g.Release()
+			for i := 0; valid && i < 256; i++ {
+				bit := a[i/8]>>(uint(i)%8)&1 == 1
+				if !circuit.LabelForBit(g.Wires[i], bit).Equal(p3.GarblerInputs[i]) {
+					valid = false
+				}
+			}
+			if valid {
+				s.r, s.haveR = g.R, true
+				rs = append(rs, g.R)
+			}
+		}
+		if !valid && failAt == 0 {
+			s.skip = "derivation of R could not be validated against GarblerInputs"
+			return s
+		}
+	}
+	if rh != nil && (len(rs) == 0 || !rs[0].Equal(*rh)) {
+		rs = append(rs, *rh)
+	}
+	if s.round3 && len(rs) == 0 {
+		s.skip = "fault run produced a round-3 payload whose offset the harness cannot determine"
+		return s
+	}
+
+	s.transcript = append(append([]byte{}, e1...), e3...)
+	hintStart := len(e1) + len(e3) - 2*256*32
 	hintEnd := hintStart + 256*32
 	region := func(o1, o2 int) string {
-		if o1 >= hintStart && o2 < hintEnd && (o1-hintStart)%32 == 0 && o2 == o1+16 {
+		if s.round3 && o1 >= hintStart && o2 < hintEnd && (o1-hintStart)%32 == 0 && o2 == o1+16 {
 			return "hint-slot"
 		}
 		return "other"
 	}
-	leaks := scan(transcript, r, region)
-	known := 0
-	for _, l := range leaks {
-		if l.Region == "hint-slot" && l.Kind == "pair" {
-			known++
-			continue
+	sigp := "sha2pc/"
+	if failAt > 0 {
+		sigp = "sha2pc/fault/"
+	}
+	for ri, r := range rs {
+		for _, l := range scan(s.transcript, r, region) {
+			if l.Region == "hint-slot" && l.Kind == "pair" {
+				if ri == 0 {
+					s.known++
+				}
+				continue
+			}
+			o := ev.Fail(sigp+l.Kind+"/"+l.Region, "%s at byte offsets %d/%d of EncodeRound1||EncodeRound3 (%d bytes; hint region %d..%d; failing read %d)",
+				l.Kind, l.Off1, l.Off2, len(s.transcript), hintStart, hintEnd, failAt)
+			s.bad = &o
+			return s
 		}
-		return ev.Fail("sha2pc/"+l.Kind+"/"+l.Region, "%s at byte offsets %d/%d of EncodeRound1||EncodeRound3 (%d bytes; hint region %d..%d)",
-			l.Kind, l.Off1, l.Off2, len(transcript), hintStart, hintEnd)
+	}
+	return s
+}
+
+func runSha(cs ShaCase) ev.Outcome {
+	col := ev.Get(prop)
+	h := shaOnce(cs, 0, nil)
+	if h.skip != "" {
+		return ev.Outcome{Skip: h.skip}
+	}
+	if h.bad != nil {
+		return *h.bad
+	}
+	classes := []string{"mode=sha2pc", "curve=" + cs.Curve}
+	known := h.known
+	sum := sha256.New()
+	sum.Write(h.transcript)
+	evals := 1
+	if cs.Fault != nil {
+		k := cs.Fault.index(h.reads)
+		rRead := readOfR(h.log, h.r)
+		var rh *ot.Label
+		if rRead > 0 && k > rRead {
+			rh = &h.r
+		}
+		f := shaOnce(cs, k, rh)
+		if f.skip != "" {
+			return ev.Outcome{Skip: f.skip}
+		}
+		if !f.failed || !samePrefix(h.log, f.log, k-1) {
+			return ev.Outcome{Skip: "fault run of the round protocol is not aligned with the honest run"}
+		}
+		if f.bad != nil {
+			return *f.bad
+		}
+		evals = 2
+		classes = append(classes, "fault", "fault-at="+cs.Fault.Mode)
+		switch {
+		case rRead == 0:
+			classes = append(classes, "fault-hit=R-read-unidentified")
+		case k < rRead:
+			classes = append(classes, "fault-hit=before-R")
+		case k == rRead:
+			classes = append(classes, "fault-hit=read-of-R")
+		default:
+			classes = append(classes, "fault-hit=after-R")
+		}
+		if f.round3 {
+			classes = append(classes, "fault-end=completed")
+		} else {
+			classes = append(classes, "fault-end=aborted")
+		}
+		if rh != nil || f.haveR {
+			classes = append(classes, "fault-nontrivial")
+		} else {
+			classes = append(classes, "fault-trivial")
+		}
+		known += f.known
+		sum.Write([]byte(fmt.Sprintf("|fault %d|", k)))
+		sum.Write(f.transcript)
 	}
 	if known > 0 {
 		o := ev.Fail(hintKey, "Round3Payload.OutputHints carries both labels of %d output wires: L0 xor L1 = R is disclosed to the evaluator (curve %s)", known, cs.Curve)
-		o.Key = fmt.Sprintf("%x", sha256.Sum256(transcript))
+		o.Key = fmt.Sprintf("%x", sum.Sum(nil))
+		o.Classes = classes
+		o.Evals = evals
 		if col.IsKnown(hintKey) {
 			col.Count("sha2pc_sessions_with_only_the_known_hint_leak", 1)
 		}
 		return o
 	}
-	o := ev.OK(true, "mode=sha2pc", "curve="+cs.Curve)
-	o.Key = fmt.Sprintf("%x", sha256.Sum256(transcript))
+	o := ev.OK(true, classes...)
+	o.Evals = evals
+	o.Key = fmt.Sprintf("%x", sum.Sum(nil))
 	return o
 }
 
